@@ -398,6 +398,13 @@ func (h *RunHarness) Start(ctx context.Context, extra Ev) {
 
 func (h *RunHarness) Wait() { h.wg.Wait() }
 
+// Returned: number of controllers whose Run has returned so far
+func (h *RunHarness) Returned() int {
+	h.mu.Lock()
+	defer h.mu.Unlock()
+	return len(h.Errs)
+}
+
 func (h *RunHarness) Final() {
 	var regs []Ev
 	for _, id := range h.ord {
